@@ -49,11 +49,13 @@ Record fcell := { res : fres; fwaker : option waker }.
 #[export] Instance eta_evcell : Settable _ := settable! Build_evcell <fired; wakers>.
 #[export] Instance eta_fcell : Settable _ := settable! Build_fcell <res; fwaker>.
 
-Inductive preg := RReady | RPending | RJobPending (j : job).
+Inductive preg := RReady | RPending.
+(* who polls a job, i.e. where its poll returns to: drain (pool), run_one_job_now (sync caller), drain_queue f with DrainWaker d *)
+Inductive kont := KDrain | KRoj | KDq (f d : nat).
 
 Inductive frame :=
 | FTop (script : list cop)
-| FPanic
+| FPanic (r : bool)      (* the code's panic!; r = the thread died while running the queue (shown unreachable) *)
 (* schedule_job_desync *)
 | FD1 (j : job) | FD2
 (* use of a returned SchedulerFuture *)
@@ -63,7 +65,7 @@ Inductive frame :=
 | FFS1 (f : nat)
 (* SchedulerFuture::poll / drain_queue *)
 | FSFpoll (f : nat)
-| FDQtake (f : nat) | FDQdeq (f : nat) | FDQafter (f d : nat) | FDQrequeue (f d : nat) (j : job) | FDQtake2 (f d : nat)
+| FDQtake (f : nat) | FDQdeq (f : nat) | FDQrequeue (f d : nat) (j : job) | FDQtake2 (f d : nat)
 | FDQwfw (f d : nat) | FDQstore (f d : nat) | FDQwfp (f d : nat)
 | FDQempty1 (f : nat) | FDQempty2 (f : nat) | FDQidle (f : nat)
 | FWakeWith (d : nat) (w : waker)
@@ -74,15 +76,15 @@ Inductive frame :=
 | FSDpush (op : nat) (tk : option nat) | FSDloop | FSDidle
 | FSBreg (op : nat) (tk : option nat) | FSBpush (op : nat) (tk : option nat) | FSBwait | FSBdone
 (* run_one_job_now *)
-| FROdeq | FROafter | FROpend (j : job) | FROcheck (j : job) | FROpark (j : job)
+| FROdeq | FROpend (j : job) | FROcheck (j : job) | FROpark (j : job)
 (* reschedule_queue *)
 | FRQ1 | FRQ2
 (* fire an external event *)
 | FFire (e : nat)
 (* pool runner *)
-| FPIdle | FDRdeq | FDRafter | FDRrequeue (j : job) | FDRpend | FDRfin
+| FPIdle | FDRdeq | FDRrequeue (j : job) | FDRpend | FDRfin
 (* polling a job with a context waker *)
-| FJob (j : job) (w : waker)
+| FJob (j : job) (w : waker) (k : kont)
 (* waker calls *)
 | FWake (w : waker) | FUnpark (c : nat).
 
@@ -150,25 +152,28 @@ Definition run_closure (s : state) (op : nat) (tk : option nat) : option state :
   end.
 
 (* ---------- polling a job: frame [FJob j w] on top of [rest]; [w] = context waker ---------- *)
-Definition step_job (s : state) (a : nat) (rest : list frame) (j : job) (w : waker) : option state :=
+Definition ret_ready (k : kont) : frame := match k with KDrain => FDRdeq | KRoj => FSDloop | KDq f d => FDQtake f end.
+Definition ret_pending (k : kont) (j : job) : frame :=
+  match k with KDrain => FDRrequeue j | KRoj => FROpend j | KDq f d => FDQrequeue f d j end.
+Definition step_job (s : state) (a : nat) (rest : list frame) (j : job) (w : waker) (k : kont) : option state :=
   match j with
-  | JPlain op => Some (setstackreg (addlog s [GFinish op; GStart op]) a rest RReady)
+  | JPlain op => Some (setstack (addlog s [GFinish op; GStart op]) a (ret_ready k :: rest))
   | JSync op c tk =>
       match run_closure s op tk with
-      | None => Some (setstack s a [FPanic])
-      | Some s1 => Some (setstackreg (setsres s1 c true) a rest RReady)
+      | None => Some (setstack s a (FPanic true :: rest))
+      | Some s1 => Some (setstack (setsres s1 c true) a (ret_ready k :: rest))
       end
-  | JFut op NotCreated sc => Some (setstack (addlog s [GStart op]) a (FJob (JFut op Waiting sc) w :: rest))
-  | JFut op Waiting [] => Some (setstackreg (addlog s [GFinish op]) a rest RReady)
-  | JFut op Waiting (PTouch :: r) => Some (setstack s a (FJob (JFut op Waiting r) w :: rest))
+  | JFut op NotCreated sc => Some (setstack (addlog s [GStart op]) a (FJob (JFut op Waiting sc) w k :: rest))
+  | JFut op Waiting [] => Some (setstack (addlog s [GFinish op]) a (ret_ready k :: rest))
+  | JFut op Waiting (PTouch :: r) => Some (setstack s a (FJob (JFut op Waiting r) w k :: rest))
   | JFut op Waiting (PAwait e :: r) =>
       let c := getev s e in
-      if c.(fired) then Some (setstack s a (FJob (JFut op Waiting r) w :: rest))
-      else Some (setstackreg (setev s e (c <| wakers := w :: c.(wakers) |>)) a rest (RJobPending j))
+      if c.(fired) then Some (setstack s a (FJob (JFut op Waiting r) w k :: rest))
+      else Some (setstack (setev s e (c <| wakers := w :: c.(wakers) |>)) a (ret_pending k j :: rest))
   | JFut op Waiting (PSignal f :: r) =>
       let c := getf s f in
       let s1 := addlog (setf s f {| res := FSome op; fwaker := None |}) [GSig f op] in
-      Some (setstack s1 a (opt_wake c.(fwaker) ++ FJob (JFut op Waiting r) w :: rest))
+      Some (setstack s1 a (opt_wake c.(fwaker) ++ FJob (JFut op Waiting r) w k :: rest))
   end.
 
 (* ---------- waker calls ---------- *)
@@ -200,13 +205,13 @@ Definition step_wake_with (T : ftables) (s : state) (a : nat) (rest : list frame
   else Some (setstack (setdw s d (st', Some w)) a rest).
 
 (* ---------- SchedulerFuture::poll and drain_queue, run by caller [a] ---------- *)
-Definition step_fut (T : ftables) (s : state) (a : nat) (r : preg) (rest : list frame) (fr : frame) : option state :=
+Definition step_fut (T : ftables) (s : state) (a : nat) (rest : list frame) (fr : frame) : option state :=
   let goto s' f := Some (setstack s' a (f :: rest)) in
-  let panic := Some (setstack s a [FPanic]) in
+  let panic := Some (setstack s a (FPanic true :: rest)) in
   match fr with
   | FSFpoll f =>                                      (* [fres f], nested [core] *)
       match take_f s f with
-      | None => panic
+      | None => Some (setstack s a (FPanic false :: rest))
       | Some (s1, Some v) => Some (setstackreg s1 a rest RReady)
       | Some (_, None) =>
           let '(st', act) := T.(t_poll) f s.(qs) in
@@ -215,7 +220,7 @@ Definition step_fut (T : ftables) (s : state) (a : nat) (r : preg) (rest : list 
           match act with
           | PAWait => Some (setstackreg store a rest RPending)
           | PADrain => goto s1 (FDQtake f)
-          | PAPanic => Some (setstack store a [FPanic])
+          | PAPanic => Some (setstack store a (FPanic false :: rest))
           end
       end
   | FDQtake f =>                                      (* [fres f] *)
@@ -231,13 +236,8 @@ Definition step_fut (T : ftables) (s : state) (a : nat) (r : preg) (rest : list 
            | j :: js =>
                let d := length s.(dws) in
                let s1 := s <| jobs := js |> <| dws := s.(dws) ++ [(DWNotWoken, None)] |> in
-               Some (setstack s1 a (FJob j (WDrain d) :: FDQafter f d :: rest))
+               Some (setstack s1 a (FJob j (WDrain d) (KDq f d) :: rest))
            end
-  | FDQafter f d =>
-      match r with
-      | RJobPending j => goto s (FDQrequeue f d j)
-      | _ => goto s (FDQtake f)
-      end
   | FDQrequeue f d j => goto (s <| jobs := j :: s.(jobs) |>) (FDQtake2 f d)          (* requeue [core] *)
   | FDQtake2 f d =>                                   (* [fres f] *)
       match take_f s f with
@@ -258,24 +258,24 @@ Definition step_fut (T : ftables) (s : state) (a : nat) (r : preg) (rest : list 
   end.
 
 (* ---------- sync (plain closure, or SchedulerFuture::sync() when tk = Some f), run_one_job_now, reschedule_queue ---------- *)
-Definition step_sync (T : ftables) (s : state) (a : nat) (r : preg) (sr : bool) (tok : bool) (rest : list frame) (fr : frame) : option state :=
+Definition step_sync (T : ftables) (s : state) (a : nat) (sr : bool) (tok : bool) (rest : list frame) (fr : frame) : option state :=
   let goto s' f := Some (setstack s' a (f :: rest)) in
-  let panic := Some (setstack s a [FPanic]) in
+  let panic := Some (setstack s a (FPanic true :: rest)) in
   let B := T.(ft_base) in
   match fr with
   | FS1 op tk =>                                      (* [core] *)
       let '(st', act) := B.(t_sync) s.(qs) (bool_decide (s.(jobs) = [])) in
       let s1 := s <| qs := st' |> in
       match act with
-      | SAImmediate => Some (setstack (addlog s1 [GPush op]) a (FClosure op tk :: FSIidle :: rest))
+      | SAImmediate => goto (addlog s1 [GPush op]) (FClosure op tk)
       | SADrain => goto s1 (FSDpush op tk)
       | SABackground => goto s1 (FSBreg op tk)
-      | SAPanic => Some (setstack s1 a [FPanic])
+      | SAPanic => Some (setstack s1 a (FPanic false :: rest))
       end
-  | FClosure op tk => match run_closure s op tk with None => panic | Some s1 => Some (setstack s1 a rest) end   (* LNone | [fres f] *)
+  | FClosure op tk => match run_closure s op tk with None => panic | Some s1 => goto s1 FSIidle end   (* LNone | [fres f] *)
   | FSIidle => Some (setstack (s <| qs := Idle |>) a (FRQ1 :: rest))                                            (* [core] *)
   | FSDpush op tk => goto (addlog (setsres (s <| jobs := s.(jobs) ++ [JSync op a tk] |>) a false) [GPush op]) FSDloop   (* [core] *)
-  | FSDloop => if sr then goto s FSDidle else Some (setstack s a (FROdeq :: FSDloop :: rest))
+  | FSDloop => if sr then goto s FSDidle else goto s FROdeq
   | FSDidle => Some (setstack (s <| qs := Idle |>) a (FRQ1 :: rest))                                            (* [core] *)
   | FSBreg op tk => goto s (FSBpush op tk)                                                                     (* [core] wake_blocked.push *)
   | FSBpush op tk =>                                  (* [core] *)
@@ -287,21 +287,20 @@ Definition step_sync (T : ftables) (s : state) (a : nat) (r : preg) (sr : bool) 
   | FSBwait => if sr then goto s FSBdone else None     (* abstract: blocked until the job has been run by the queue's runner *)
   | FSBdone => Some (setstack s a rest)                (* [core] wake_blocked.retain *)
   | FROdeq =>                                         (* dequeue [core] *)
-      if B.(t_dequeue_refuses) s.(qs) then Some (setstack s a rest)
+      if B.(t_dequeue_refuses) s.(qs) then goto s FSDloop
       else match s.(jobs) with
-           | [] => Some (setstack s a rest)
-           | j :: js => Some (setstack (s <| jobs := js |>) a (FJob j (WThread a) :: FROafter :: rest))
+           | [] => goto s FSDloop
+           | j :: js => goto (s <| jobs := js |>) (FJob j (WThread a) KRoj)
            end
-  | FROafter => match r with RJobPending j => goto s (FROpend j) | _ => Some (setstack s a rest) end
   | FROpend j =>                                      (* [core] *)
       match T.(t_roj_pend) s.(qs) with
       | None => panic
       | Some st' => if is_wfu st' then goto (s <| qs := st' |>) (FROcheck j)
-                    else Some (setstack (s <| qs := st' |>) a (FJob j (WThread a) :: FROafter :: rest))
+                    else goto (s <| qs := st' |>) (FJob j (WThread a) KRoj)
       end
   | FROcheck j =>                                     (* [core] *)
       match T.(t_roj_park) s.(qs) with
-      | PKBreak => Some (setstack s a (FJob j (WThread a) :: FROafter :: rest))
+      | PKBreak => goto s (FJob j (WThread a) KRoj)
       | PKPark => goto s (FROpark j)
       | PKPanic => panic
       end
@@ -314,7 +313,7 @@ Definition step_sync (T : ftables) (s : state) (a : nat) (r : preg) (sr : bool) 
   end.
 
 (* ---------- pool runner: next_to_run (one schedule entry per step) and drain ---------- *)
-Definition step_pool (T : ftables) (s : state) (a : nat) (r : preg) (rest : list frame) (fr : frame) : option state :=
+Definition step_pool (T : ftables) (s : state) (a : nat) (rest : list frame) (fr : frame) : option state :=
   let goto s' f := Some (setstack s' a (f :: rest)) in
   let B := T.(ft_base) in
   match fr with
@@ -330,9 +329,8 @@ Definition step_pool (T : ftables) (s : state) (a : nat) (r : preg) (rest : list
       if B.(t_dequeue_refuses) s.(qs) then goto s FDRfin
       else match s.(jobs) with
            | [] => goto s FDRfin
-           | j :: js => Some (setstack (s <| jobs := js |>) a (FJob j WQueue :: FDRafter :: rest))
+           | j :: js => goto (s <| jobs := js |>) (FJob j WQueue KDrain)
            end
-  | FDRafter => match r with RJobPending j => goto s (FDRrequeue j) | _ => goto s FDRdeq end
   | FDRrequeue j => goto (s <| jobs := j :: s.(jobs) |>) FDRpend            (* requeue [core] *)
   | FDRpend =>                                        (* [core] *)
       let st' := T.(t_drain_pend) s.(qs) in
@@ -346,7 +344,7 @@ Definition step_pool (T : ftables) (s : state) (a : nat) (r : preg) (rest : list
 (* ---------- caller top level, schedule_job_desync, uses of a returned future, fire ---------- *)
 Definition step_caller (T : ftables) (s : state) (a : nat) (r : preg) (tok : bool) (rest : list frame) (fr : frame) : option state :=
   let goto s' f := Some (setstack s' a (f :: rest)) in
-  let panic := Some (setstack s a [FPanic]) in
+  let panic := Some (setstack s a (FPanic false :: rest)) in
   match fr with
   | FTop [] => None
   | FTop (o :: os) =>
@@ -364,7 +362,7 @@ Definition step_caller (T : ftables) (s : state) (a : nat) (r : preg) (tok : boo
       | OSync => Some (setstack s1 a (FS1 op None :: FTop os :: rest))
       | OFire e => Some (setstack s a (FFire e :: FTop os :: rest))
       end
-  | FPanic => None
+  | FPanic _ => None
   | FD1 j =>                                          (* [core] push_back, then the table *)
       let '(st', act) := T.(ft_base).(t_desync) s.(qs) in
       let op := match j with JPlain o | JFut o _ _ | JSync o _ _ => o end in
@@ -372,7 +370,7 @@ Definition step_caller (T : ftables) (s : state) (a : nat) (r : preg) (tok : boo
       match act with
       | DASchedule => goto s1 FD2
       | DANone => Some (setstack s1 a rest)
-      | DAPanic => Some (setstack s1 a [FPanic])
+      | DAPanic => Some (setstack s1 a (FPanic false :: rest))
       end
   | FD2 => Some (setstack (s <| insched := S s.(insched) |>) a rest)       (* [sched] push_back *)
   | FUse f u =>
@@ -407,14 +405,14 @@ Definition step (T : ftables) (s : state) (a : nat) : option state :=
   | [] => None
   | fr :: rest =>
       match fr with
-      | FJob j w => step_job s a rest j w
+      | FJob j w k => step_job s a rest j w k
       | FWake w => step_wake T s a rest w
       | FWakeWith d w => step_wake_with T s a rest d w
-      | FSFpoll _ | FDQtake _ | FDQdeq _ | FDQafter _ _ | FDQrequeue _ _ _ | FDQtake2 _ _ | FDQwfw _ _ | FDQstore _ _
-      | FDQwfp _ _ | FDQempty1 _ | FDQempty2 _ | FDQidle _ => step_fut T s a ac.(reg) rest fr
+      | FSFpoll _ | FDQtake _ | FDQdeq _ | FDQrequeue _ _ _ | FDQtake2 _ _ | FDQwfw _ _ | FDQstore _ _
+      | FDQwfp _ _ | FDQempty1 _ | FDQempty2 _ | FDQidle _ => step_fut T s a rest fr
       | FS1 _ _ | FClosure _ _ | FSIidle | FSDpush _ _ | FSDloop | FSDidle | FSBreg _ _ | FSBpush _ _ | FSBwait | FSBdone
-      | FROdeq | FROafter | FROpend _ | FROcheck _ | FROpark _ | FRQ1 | FRQ2 => step_sync T s a ac.(reg) ac.(sres) ac.(token) rest fr
-      | FPIdle | FDRdeq | FDRafter | FDRrequeue _ | FDRpend | FDRfin => step_pool T s a ac.(reg) rest fr
+      | FROdeq | FROpend _ | FROcheck _ | FROpark _ | FRQ1 | FRQ2 => step_sync T s a ac.(sres) ac.(token) rest fr
+      | FPIdle | FDRdeq | FDRrequeue _ | FDRpend | FDRfin => step_pool T s a rest fr
       | _ => step_caller T s a ac.(reg) ac.(token) rest fr
       end
   end.
@@ -430,10 +428,10 @@ Definition frame_label (fr : frame) : lockclass * nat :=
   | FDRdeq | FDRrequeue _ | FDRpend | FDRfin | FWake WQueue | FWake (WThread _) => (LCore, 0)
   | FD2 | FRQ2 | FPIdle => (LSched, 0)          (* FPIdle: schedule lock, with the queue-core lock nested inside *)
   | FSFpoll f (* core nested *) | FDQtake f | FDQtake2 f _ | FDQstore f _ | FDQempty1 f | FFS1 f
-  | FClosure _ (Some f) | FJob (JSync _ _ (Some f)) _ | FJob (JFut _ Waiting (PSignal f :: _)) _ => (LFres, f)
+  | FClosure _ (Some f) | FJob (JSync _ _ (Some f)) _ _ | FJob (JFut _ Waiting (PSignal f :: _)) _ _ => (LFres, f)
   | FWakeWith d _ | FWake (WDrain d) => (LDw, d)
   | FWake (WDouble k) => (LDbl, k)
-  | FFire e | FJob (JFut _ Waiting (PAwait e :: _)) _ => (LEv, e)
+  | FFire e | FJob (JFut _ Waiting (PAwait e :: _)) _ _ => (LEv, e)
   | _ => (LNone, 0)
   end.
 Definition step_label (s : state) (a : nat) : option (lockclass * nat) :=
